@@ -91,7 +91,8 @@ def path(fid, side, skin, marker_line=False):
     pre = skin.get("prefixes", ("a/", "b/"))
     full = (pre[0] if side == "a" else pre[1]) + name
     if skin.get("quote"):
-        return '"' + full + '"'
+        # (a quoted name that contains a space as well: the TAB follows the closing quote)
+        return '"' + full + '"' + ("\t" if marker_line and " " in full else "")
     if marker_line and " " in full:
         return full + "\t"      # git appends a TAB on ---/+++ lines when the path contains a space
     return full
@@ -116,7 +117,7 @@ def concretise(hist, payload=default_payload, skin=None, k0=0):
     n = len(hist)
     koff = k0
     kd = ""
-    diffu = bool(hist) and (hist[0]["c"] in ("du", "onlyin") or hist[0].get("kd") == "dufile")
+    diffu = bool(hist) and (hist[0]["c"] in ("du", "onlyin") or hist[0].get("kd") in ("dufile", "dubin"))
     stamp = "\t2024-01-01 00:00:00.000000000 +0000"
     for k0, l in enumerate(hist):
         k = k0 + 1 + koff
@@ -180,6 +181,8 @@ def concretise(hist, payload=default_payload, skin=None, k0=0):
             t = "old mode 100644"
         elif c == "newmode":
             t = "new mode 100755"
+        elif c == "binary" and diffu:
+            t = f"Binary files old/{bare_path(f, skin)} and new/{bare_path(g, skin)} differ"
         elif c == "binary":
             t = f"Binary files {path(f, 'a', skin)} and {path(g, 'b', skin)} differ"
         elif c == "mmm":
